@@ -21,6 +21,29 @@ def run(chk, prog):
     chk.rule(RC, 'complete_function_evaluation_from_game checks the frame type, pops the evaluation stack down to '
              'evaluation_stack_height_when_pushed and pops a FunctionEvaluationFromGame frame on every Ok path.')
 
+    RD = 'C16.no-fallback-follow-during-host-evaluation'
+    chk.rule(RD, 'In continue_single_step, try_follow_default_invisible_choice is reached only when the current frame is '
+             'not the host-evaluation frame (element_is_evaluate_from_game() = false): when the host-evaluated function '
+             'ends, the main flow\'s pending fallback choice must not be followed from inside evaluate_function.')
+    css = prog.fn('Story::continue_single_step')
+    if chk.anchor(RD, 'Story::continue_single_step', css):
+        from analysis.guards import GuardFlow
+
+        def atom_of(desc):
+            if desc[0] == 'call' and desc[1] == 'CallStack::element_is_evaluate_from_game':
+                return 'hosteval'
+            return None
+        gfd = GuardFlow(prog, css, atom_of, tracer=tr)
+        gfd.run()
+        tf = [bb for bb, t in css.calls() if callee_short(t) == 'Story::try_follow_default_invisible_choice']
+        if chk.anchor(RD, 'call of try_follow_default_invisible_choice', tf):
+            vs = [v for b in tf for v in gfd.valuations_at(b, ['hosteval'])]
+            chk.decide(RD, chk.key(RD, 'continue_single_step'), bool(vs) and all(v['hosteval'] is False for v in vs),
+                       'the fallback choice is followed only outside host function evaluation',
+                       'try_follow_default_invisible_choice can run while the host-evaluation frame is current '
+                       '(valuations %s): a pending fallback choice of the main flow is taken from inside '
+                       'evaluate_function, replacing the call stack' % vs, css.loc(tf[0]))
+
     ef = prog.fn('Story::evaluate_function')
     if not chk.anchor(RA, 'Story::evaluate_function', ef):
         return
